@@ -379,8 +379,12 @@ func init() {
 				logger.DeferLogs()
 				logger.ImmediateLogs()
 				devnull.Close()
-				if lerr != nil || len(loaded) != nDefs {
+				if lerr != nil {
 					continue // a body that does not compile (arity): not this world's subject
+				}
+				if len(loaded) != nDefs {
+					rc.Violate("funcs-file-definition-lost", "the funcs file defines %d functions without an error, but %d were loaded:\n%q", nDefs, len(loaded), funcsText)
+					return
 				}
 				funclib.AddFunctions(loaded)
 			case "range":
